@@ -8,6 +8,7 @@ out=mutants/RESULTS.tsv
 [ -z "$pat" ] && printf 'mutant\tcheck\tverdict\tsuite\tfirst_signature\n' > $out
 checks_for() {
   case "$1" in
+    c12-retry-keeps-in-flight) echo C17 ;;
     c[0-9][0-9]-*) echo "C$(echo $1 | cut -c2-3)" ;;
     reintroduce-F1-*) echo C03 ;; reintroduce-F2-*) echo C04 ;; reintroduce-F3-*) echo C08 ;;
     reintroduce-F4-*) echo C02 ;; reintroduce-F5-*) echo C01 ;; reintroduce-F6-*) echo C19 ;;
